@@ -58,6 +58,9 @@ type Request struct {
 
 const maxU64 = ^uint64(0)
 
+// maxNoteSigs is the note format's limit on signature lines (golang.org/x/mod/sumdb/note refuses a note with more).
+const maxNoteSigs = 100
+
 func umod(v uint64, n int) int {
 	if n <= 0 {
 		return 0
@@ -255,6 +258,12 @@ func resolveUpdate(w *World, op Op, st Stored) *Request {
 		n := int(op.MV % 1000)
 		for i := 0; i < n; i++ {
 			lines = append(lines, sigLine(fmt.Sprintf("junk%d", i), mr.Uint32(), mr.Bytes(64)))
+		}
+		switch {
+		case len(lines) > maxNoteSigs:
+			r.SigValid = 0 // more signature lines than the note format allows: not a note
+		case len(lines)+len(w.WitKeys) > maxNoteSigs && r.SigValid == 1:
+			r.SigValid = -1 // a note, but its cosigned form would not be one: it cannot be accepted; how it is refused is left open
 		}
 	case "xsig_unknown_first":
 		pre := []string{}
